@@ -985,3 +985,216 @@ def _():
     for nm in ("get_transformation", "do_transformation", "find_center"):
         out += _fp(f"{nm}_body", " ; ".join(_stmt_texts(find_def(GM, nm))))
     return out
+
+
+# ======================================================================================
+# Gen/Eval.lean  --  evaluation kernels, shifts, log scaling, upsampling constants, dtypes
+# ======================================================================================
+_trcore.GEN_IMPORTS["Eval"] = ["BlobfinderModel.Model.Scalar"]
+
+
+@fragment("Eval", "refine_center")
+def _():
+    fn = find_def(BC, "refine_center")
+    body = stmts_of(fn)
+    if [ast.unparse(s).replace("(", "").replace(")", "") for s in body[:2]] != ["y, x = center", "s = corrmap.shape"]:
+        raise Untranslatable(f"refine_center prologue: {[ast.unparse(s) for s in body[:2]]}")
+    rr = body[2]
+    if not (isinstance(rr, ast.Assign) and ast.unparse(rr.targets[0]) == "r"):
+        raise Untranslatable("refine_center: clip of r")
+    params = [("r", INT), ("y", INT), ("x", INT), ("s0", INT), ("s1", INT)]
+    env = Env(subst={"s[0]": ("s0", INT), "s[1]": ("s1", INT)}, vars={n: (n, t) for n, t in params})
+    out = expr_def("refine_r", params, rr.value, subst=env.subst, doc="clipped refinement radius of `refine_center`")
+    iff = body[3]
+    if not isinstance(iff, ast.If):
+        raise Untranslatable("refine_center: guard")
+    g, _ = tr(iff.test, Env(vars={"r": ("r", INT)}))
+    out += f"\n/-- guard: return the integer centre unrefined -/\ndef refine_guard (r : Int) : Bool := {g}\n"
+    if len(iff.body) != 1 or ast.unparse(iff.body[0]) != "return (np.float32(y), np.float32(x))":
+        raise Untranslatable("refine_center: guarded return")
+    els = iff.orelse
+    cut = [s for s in els if isinstance(s, ast.Assign) and ast.unparse(s.targets[0]) == "cutout"]
+    if len(cut) != 1 or not isinstance(cut[0].value, ast.Subscript) or ast.unparse(cut[0].value.value) != "corrmap":
+        raise Untranslatable("refine_center: cutout")
+    sl = cut[0].value.slice.elts
+    e2 = Env(vars={"y": ("c", INT), "x": ("c", INT), "r": ("r", INT)})
+    lo_y, hi_y = tr(sl[0].lower, e2)[0], tr(sl[0].upper, e2)[0]
+    lo_x, hi_x = tr(sl[1].lower, e2)[0], tr(sl[1].upper, e2)[0]
+    if (lo_y, hi_y) != (lo_x, hi_x):
+        raise Untranslatable("refine_center: cutout bounds differ between the axes")
+    out += f"def cut_lo (c r : Int) : Int := {lo_y}\ndef cut_hi (c r : Int) : Int := {hi_y}\n"
+    texts = [ast.unparse(s) for s in els if not isinstance(s, ast.Expr)]
+    want_mid = ["m = np.min(cutout)", "(ry, rx) = center_of_mass(cutout - m)"]
+    mid = [t.replace("ry, rx = ", "(ry, rx) = ") for t in texts[1:3]]
+    if mid != want_mid:
+        raise Untranslatable(f"refine_center: {texts[1:3]}")
+    ry = [s for s in els if isinstance(s, ast.Assign) and ast.unparse(s.targets[0]) == "refined_y"][0]
+    rx = [s for s in els if isinstance(s, ast.Assign) and ast.unparse(s.targets[0]) == "refined_x"][0]
+    e3 = Env(vars={"y": ("c", INT), "x": ("c", INT), "ry": ("com", RAT), "rx": ("com", RAT), "r": ("r", INT)})
+    ty, tx = tr(ry.value, e3), tr(rx.value, e3)
+    if ty != tx:
+        raise Untranslatable("refined_y / refined_x differ")
+    out += f"def refined_coord (c : Int) (com : Rat) (r : Int) : Rat := {coerce(ty[0], ty[1], RAT)}\n"
+    com = find_def(BC, "center_of_mass")
+    out += _fp("com_body", " ; ".join(_stmt_texts(com)))
+    return out
+
+
+@fragment("Eval", "evaluate")
+def _():
+    fn = find_def(BC, "evaluate_correlations")
+    loops = [s for s in stmts_of(fn) if isinstance(s, ast.For)]
+    if len(loops) != 1 or ast.unparse(loops[0].iter) != "range(len(corrs))":
+        raise Untranslatable("evaluate_correlations loop")
+    body = loops[0].body
+    out = _fp("evaluate_body", " ; ".join(ast.unparse(s) for s in body))
+    rc = find_calls(loops[0], "refine_center")
+    if len(rc) != 1 or len(rc[0].args) != 3:
+        raise Untranslatable("refine_center call")
+    v, t = tr(rc[0].args[1], Env())
+    out += f"/-- refinement radius passed by `evaluate_correlations` -/\ndef refine_radius : Int := {v}\n"
+    pe = find_def(BC, "peak_elevation")
+    rmin = default_of(pe, "r_min")
+    rmax = default_of(pe, "r_max")
+    v, t = tr(rmin, Env())
+    out += f"def elev_rmin : Rat := {coerce(v, t, RAT)}\n"
+    out += f"def elev_rmax_is_inf : Bool := {lean_bool(ast.unparse(rmax) in ('np.inf', 'float(\"inf\")', 'math.inf'))}\n"
+    call = find_calls(loops[0], "peak_elevation")
+    if len(call) != 1 or len(call[0].args) != 3 or call[0].keywords:
+        raise Untranslatable("peak_elevation call overrides r_min / r_max")
+    out += _fp("elev_call_args", ", ".join(ast.unparse(a) for a in call[0].args))
+    inner = [n for n in ast.walk(pe) if isinstance(n, ast.If)]
+    if len(inner) != 1:
+        raise Untranslatable("peak_elevation: condition")
+    env = Env(vars={"dist": ("dist", RAT), "r_min": ("r_min", RAT)})
+    test = inner[0].test
+    if not (isinstance(test, ast.BoolOp) and isinstance(test.op, ast.And) and len(test.values) == 2
+            and ast.unparse(test.values[1]).strip("()") == "dist < r_max"):
+        raise Untranslatable(f"peak_elevation test {ast.unparse(test)}")
+    c, _ = tr(test.values[0], env)
+    out += f"def elev_in_range (dist r_min : Rat) : Bool := {c}\n"
+    out += _fp("elev_dist_expr", ast.unparse(find_assign(pe, "dist").value))
+    out += _fp("elev_update", ast.unparse(inner[0].body[0]))
+    ret = [s for s in stmts_of(pe) if isinstance(s, ast.Return)][0]
+    out += _fp("elev_return", ast.unparse(ret.value))
+    out += _fp("elev_init", ast.unparse(find_assign(pe, "result", nth=0).value))
+    out += _fp("unravel_body", " ; ".join(_stmt_texts(find_def(BC, "unravel_index"))))
+    return out
+
+
+@fragment("Eval", "shift")
+def _():
+    out = ""
+    for nm in ("_shift", "_unshift"):
+        fn = find_def(BC, nm)
+        ret = stmts_of(fn)[0]
+        argn = [a.arg for a in fn.args.args]
+        env = Env(subst={"np.array((crop_size, crop_size))": ("crop_size", INT)},
+                  vars={argn[0]: ("v", INT), argn[1]: ("anchor", INT), "crop_size": ("crop_size", INT)})
+        v, t = tr(ret.value, env)
+        out += f"/-- `{nm}` per component -/\ndef {nm.strip('_')} (v anchor crop_size : Int) : Int := {v}\n"
+    return out
+
+
+def _corr_expr(fn, target):
+    a = find_assign(fn, target)
+    call = a.value
+    shift = ast.unparse(call.func)
+    inner = call.args[0]
+    s_kw = any(k.arg == "s" for k in inner.keywords) if isinstance(inner, ast.Call) else False
+    s_txt = next((ast.unparse(k.value) for k in inner.keywords if k.arg == "s"), "") if isinstance(inner, ast.Call) else ""
+    axes = next((ast.unparse(k.value) for k in call.keywords if k.arg == "axes"), "")
+    return shift, ast.unparse(inner.func) if isinstance(inner, ast.Call) else "", s_kw, s_txt, axes, ast.unparse(inner.args[0]) if isinstance(inner, ast.Call) and inner.args else ""
+
+
+@fragment("Eval", "correlation_fft")
+def _():
+    out = ""
+    fn = find_def(BC, "do_correlations")
+    sh, inv, skw, stxt, axes, arg = _corr_expr(fn, "corrs")
+    out += _fp("fast_corr_shift", sh) + _fp("fast_corr_inverse", inv) + _fp("fast_corr_s", stxt) + _fp("fast_corr_axes", axes)
+    out += _fp("fast_corr_spec", ast.unparse(find_assign(fn, "corrspecs").value))
+    out += _fp("fast_corr_fwd", ast.unparse(find_assign(fn, "spec_parts").value))
+    fn = find_def(BC, "process_frame_full")
+    sh, inv, skw, stxt, axes, arg = _corr_expr(fn, "corr")
+    out += _fp("full_corr_shift", sh) + _fp("full_corr_inverse", inv) + _fp("full_corr_s", stxt) + _fp("full_corr_axes", axes)
+    out += _fp("full_corr_spec", ast.unparse(find_assign(fn, "corrspec").value))
+    fn = find_def(CC, "get_correlation")
+    ret = [s for s in stmts_of(fn) if isinstance(s, ast.Return)][0].value
+    if not (isinstance(ret, ast.Call) and isinstance(ret.args[0], ast.Call)):
+        raise Untranslatable("get_correlation return")
+    out += _fp("getcorr_shift", ast.unparse(ret.func))
+    out += _fp("getcorr_inverse", ast.unparse(ret.args[0].func))
+    out += _fp("getcorr_s", next((ast.unparse(k.value) for k in ret.args[0].keywords if k.arg == "s"), ""))
+    out += _fp("getcorr_axes", next((ast.unparse(k.value) for k in ret.keywords if k.arg == "axes"), ""))
+    out += _fp("getcorr_template", ast.unparse(find_assign(fn, "spec_mask").value))
+    gp = find_def(CC, "get_peaks")
+    out += _fp("get_peaks_body", " ; ".join(_stmt_texts(gp)[-3:]))
+    return out
+
+
+@fragment("Eval", "log_scale")
+def _():
+    fn = find_def(BC, "log_scale")
+    ret = [s for s in stmts_of(fn) if isinstance(s, ast.Return)][0].value
+    if not (isinstance(ret, ast.Call) and ast.unparse(ret.func) == "np.log"):
+        raise Untranslatable("log_scale does not return np.log(...)")
+    dt = find_assign(fn, "dtype")
+    out = _fp("log_dtype", ast.unparse(dt.value))
+    env = Env(subst={"data.astype(dtype, copy=False)": ("x", RAT), "np.min(data)": ("m", RAT)})
+    v, t = tr(ret.args[0], env)
+    out += f"/-- argument of the logarithm in `log_scale` (`x` pixel value after the cast, `m` frame minimum) -/\ndef log_arg (x m : Rat) : Rat := {coerce(v, t, RAT)}\n"
+    out += _fp("log_out", next((ast.unparse(k.value) for k in ret.keywords if k.arg == "out"), ""))
+    fn = find_def(BC, "log_scale_cropbufs_inplace")
+    m = find_assign(fn, "m")
+    env = Env(subst={"np.min(crop_bufs, axis=(-1, -2))": ("mn", RAT)})
+    v, t = tr(m.value, env)
+    out += f"def cropbuf_m (mn : Rat) : Rat := {coerce(v, t, RAT)}\n"
+    out += _fp("cropbuf_min_expr", ast.unparse(m.value))
+    lg = [s for s in stmts_of(fn) if isinstance(s, ast.Expr) and isinstance(s.value, ast.Call)
+          and ast.unparse(s.value.func) == "np.log"]
+    if len(lg) != 1:
+        raise Untranslatable("log_scale_cropbufs_inplace: np.log call")
+    env = Env(subst={"crop_bufs": ("x", RAT), "m[:, np.newaxis, np.newaxis]": ("m", RAT)})
+    v, t = tr(lg[0].value.args[0], env)
+    out += f"def cropbuf_log_arg (x m : Rat) : Rat := {coerce(v, t, RAT)}\n"
+    out += _fp("cropbuf_log_out", next((ast.unparse(k.value) for k in lg[0].value.keywords if k.arg == "out"), ""))
+    return out
+
+
+@fragment("Eval", "upsampling")
+def _():
+    fn = find_def(BC, "refine_center_upsampling")
+    reg = find_assign(fn, "upsampled_region_size")
+    env = Env(vars={"upsample_factor": ("us", INT)})
+    v, t = tr(reg.value, env)
+    out = f"def us_region (us : Int) : Int := {v}\n"
+    d = find_assign(fn, "dftshift")
+    v, t = tr(d.value, Env(vars={"upsampled_region_size": ("region", INT)}))
+    out += f"def us_dftshift (region : Int) : Int := {v}\n"
+    for nm in ("shift", "shift_us", "sample_region_offset"):
+        out += _fp(f"us_{nm}", ast.unparse(find_assign(fn, nm).value))
+    out += _fp("us_tail", " ; ".join(ast.unparse(s) for s in stmts_of(fn)[-6:]))
+    ev = find_def(BC, "evaluate_upsampling")
+    out += _fp("us_corr_center_expr", ast.unparse(find_assign(ev, "corr_center").value))
+    out += _fp("us_corr_shape", ast.unparse(find_assign(ev, "corr_shape").value))
+    out += _fp("us_frequencies", ast.unparse(find_assign(ev, "frequencies").value))
+    lp = [s for s in stmts_of(ev) if isinstance(s, ast.For)][0]
+    out += _fp("us_loop", " ; ".join(ast.unparse(s) for s in lp.body))
+    out += _fp("us_dft_body", " ; ".join(_stmt_texts(find_def(BC, "_upsampled_dft"))))
+    return out
+
+
+@fragment("Eval", "dtypes")
+def _():
+    out = ""
+    for nm in ("process_frames_fast", "process_frames_full"):
+        fn = find_def(CC, nm)
+        for tgt in ("centers", "refineds", "heights", "elevations"):
+            out += _fp(f"{nm[15:]}_{tgt}_alloc", ast.unparse(find_assign(fn, tgt).value))
+    fn = find_def(CC, "process_frames_fast")
+    out += _fp("fast_crop_bufs_alloc", ast.unparse(find_assign(fn, "crop_bufs").value))
+    fn = find_def(CC, "process_frames_full")
+    out += _fp("full_frame_buf_alloc", ast.unparse(find_assign(fn, "frame_buf").value))
+    out += _fp("full_buf_count", ast.unparse(find_assign(fn, "buf_count").value))
+    return out
